@@ -96,6 +96,10 @@ def run(ctx):
                  ('G-LIT', 'enum literals defined'), ('G-OWNER', 'size-dependent facts are read from the unit that owns the data')):
         ctx.rule(r, d)
     ctx.guard('G-OWNER', 'owners', owner.gowner, ctx, w, ('dwarf/ranges.py', 'dwarf/locationlists.py', 'dwarf/dwarfinfo.py', 'dwarf/dwarf_util.py'))
+    # rnglistx / loclistx go through _resolve_via_offset_table (rule owned by C04, shared)
+    from props import C04
+    ctx.rule('G-TRANS', 'list index resolved through the offset table of its own section')
+    ctx.guard('G-TRANS', 'offset table', C04.check_offset_table, ctx, w, 'G-TRANS')
     ctx.floor('G-OWNER', 9)
     ctx.guard('L-CONF', 'loclists header', dwconf.check_struct, ctx, w, 'Dwarf_loclists_CU_header', D.LISTS_HEADER)
     ctx.guard('L-CONF', 'rnglists header', dwconf.check_struct, ctx, w, 'Dwarf_rnglists_CU_header', D.LISTS_HEADER)
